@@ -346,6 +346,12 @@ def check(prop, tier='quick', seed=None, runs=None, quiet=False):
                 print(e['tb'])
         viols, known_hits, h2 = process_violations(prop, eng, seed, agg, pool, known)
         herrs.extend(h2)
+    # vacuity guard: a check whose workload was mostly not admitted has shown nothing
+    vac = getattr(eng, 'vacuity', None)
+    if vac is not None:
+        msg = vac(agg)
+        if msg:
+            herrs.append('vacuous run: ' + msg)
     wall = time.time() - t0
     write_evidence(prop, eng, tier, seed, agg, wall, len(viols), known_hits,
                    getattr(eng, 'extra_coverage', lambda a: None)(agg))
